@@ -388,6 +388,52 @@ func checkC08(c *hx.Checker) {
 			}
 		}
 	}
+	// larger shapes beyond the exhaustive box
+	for _, sh := range [][]int{{4, 5, 6}, {7, 2, 9}, {2, 3, 4, 5}, {33, 4}} {
+		data := ref.Distinct(ref.F32, sh)
+		r := len(sh)
+		for pi, p := range perms(r) {
+			if pi%3 == 0 {
+				exp, err := ref.Transpose(data, p, true)
+				add("Transpose", []hx.Attr{hx.AInts("perm", p...)}, []*ref.T{data}, exp, err, true, "op", nil, "large"+fmt.Sprint(p), "large")
+			}
+		}
+		for ax := -r; ax < r; ax++ {
+			other := ref.Distinct(ref.F32, sh)
+			exp, err := ref.Concat([]*ref.T{data, other, data}, ax)
+			add("Concat", []hx.Attr{hx.AInt("axis", int64(ax))}, []*ref.T{data, other, data}, exp, err, true, "op", nil, fmt.Sprintf("large axis=%d", ax), "large")
+			dim := int64(sh[(ax+r)%r])
+			idx := ref.I64Vec(dim-1, 0, -dim, dim/2, -1)
+			expg, errg := ref.Gather(data, idx, ax)
+			add("Gather", []hx.Attr{hx.AInt("axis", int64(ax))}, []*ref.T{data, idx}, expg, errg, true, "op", nil, fmt.Sprintf("large axis=%d", ax), "large")
+			for _, se := range [][3]int64{{0, dim, 1}, {1, dim - 1, 1}, {2, dim, 1}, {0, dim, 2}, {1, dim, 3}, {0, dim + 5, 1}} {
+				spec := ref.SliceSpec{Start: se[0], End: se[1], Step: se[2], Axis: int64(ax)}
+				exps, errs := ref.Slice(data, []ref.SliceSpec{spec})
+				extra := []string{"large"}
+				if errs == nil {
+					an := (ax + r) % r
+					if exps.Shape[an] == 1 {
+						extra = append(extra, "sliced-extent=1")
+					}
+					ce := se[1]
+					if ce > dim {
+						ce = dim
+					}
+					if se[2] > 1 && (ce-se[0])%se[2] != 0 {
+						extra = append(extra, "step-truncated")
+					}
+				}
+				add("Slice", nil, []*ref.T{data, ref.I64Vec(se[0]), ref.I64Vec(se[1]), ref.I64Vec(int64(ax)), ref.I64Vec(se[2])}, exps, errs, true, "op", nil, fmt.Sprintf("large ax=%d %v", ax, se), extra...)
+			}
+		}
+		tg := make([]int64, r+1)
+		tg[0] = 3
+		for i, e := range sh {
+			tg[i+1] = int64(e)
+		}
+		expe, erre := ref.Expand(data, tg)
+		add("Expand", nil, []*ref.T{data, ref.I64Vec(tg...)}, expe, erre, true, "op", nil, "large"+fmt.Sprint(tg), "large")
+	}
 	runOpJobs(c, jobs)
 	runReuseJobs(c, jobs)
 }
